@@ -154,6 +154,51 @@ func init() {
 			return rc
 		}})
 
+	// focus profiles shared by several properties: (name, forced ingress keys, forced global keys)
+	type focus struct {
+		name    string
+		ing     []string
+		glb     []string
+		weights map[string]int
+	}
+	focuses := []focus{
+		{"basic-auth", []string{"auth-secret", "auth-realm"}, nil, map[string]int{"ing_ann": 14, "secret_delete": 8, "secret_create": 8}},
+		{"ext-auth", []string{"auth-url", "oauth", "auth-external-placement"}, []string{"auth-proxy", "external-has-lua"}, map[string]int{"ing_ann": 16, "ing_create": 10, "ing_delete": 8, "global_change": 3}},
+		{"tcp", []string{"tcp-service-port"}, nil, map[string]int{"ing_update": 18, "ing_create": 10, "ing_delete": 8}},
+		{"tls", []string{"auth-tls-secret", "secure-crt-secret", "secure-verify-ca-secret", "secure-backends"}, nil, map[string]int{"secret_rotate": 12, "secret_delete": 6, "secret_create": 8, "secret_break": 3}},
+		{"affinity", []string{"affinity", "session-cookie-preserve", "session-cookie-value-strategy", "dynamic-scaling", "slots-min-free", "blue-green-deploy", "initial-weight"}, []string{"dynamic-scaling", "drain-support"}, map[string]int{"ep_scale": 25, "ep_ready": 10, "ep_replace": 12, "pod_term": 6}},
+	}
+	mkFocus := func(prop string, f focus, or OracleSet, lagfree func(r *rand.Rand) bool, shards bool) {
+		register(&Profile{Name: "focus-" + f.name, Prop: prop, Weight: 1, Oracles: or,
+			Build: func(seed uint64, tier string) *RunConfig {
+				r := cfgRng(seed)
+				mn, mx := tierOps(tier, 8, 26)
+				ctl := sampleCtl(r)
+				if shards {
+					ctl.BackendShards = pickInt(r, 0, 1, 3, 8, 8)
+				}
+				rc := &RunConfig{Property: prop, Profile: "focus-" + f.name, Seed: seed, Ctl: ctl, MapOrder: r.IntN(2) == 0,
+					Lagfree: lagfree(r), MidSched: r.IntN(2) == 0}
+				w := map[string]int{}
+				for k, v := range defaultWeights {
+					w[k] = v
+				}
+				for k, v := range f.weights {
+					w[k] = v
+				}
+				rc.World, rc.Ops = GenerateRun(seed, GenOptions{ExcludeIngressKeys: []string{"waf", "cert-signer"}, ForceIngressKeys: f.ing, ForceGlobalKeys: f.glb,
+					MinOps: mn, MaxOps: mx, QuiesceEvery: pickInt(r, 3, 5), KeysPerRun: pickInt(r, 1, 3), AnnChance: 2, W: w})
+				return rc
+			}})
+	}
+	sometimesLagfree := func(r *rand.Rand) bool { return r.IntN(4) == 0 }
+	alwaysLagfree := func(r *rand.Rand) bool { return true }
+	for _, f := range focuses {
+		mkFocus("C01", f, OracleSet{Property: "C01", FreshAtSync: true, EffectiveAtSync: true}, sometimesLagfree, false)
+		mkFocus("C05", f, OracleSet{Property: "C05", FreshEveryRec: true}, alwaysLagfree, true)
+		mkFocus("C07", f, OracleSet{Property: "C07", Loadable: true}, sometimesLagfree, false)
+	}
+
 	// ---------------- C07: every generated configuration is loadable
 	register(&Profile{Name: "stress", Prop: "C07",
 		Oracles: OracleSet{Property: "C07", Loadable: true},
